@@ -89,17 +89,48 @@ def gen_value(rng, depth):
     return node
 
 
+def in_context(v):
+    """every object of the value becomes a ContextNode (level 7): created from json with a keyword argument only"""
+    if v[0] == "list":
+        return ["list", [in_context(x) for x in v[1]]]
+    if v[0] == "node":
+        return ["node", 7, v[2], in_context(v[3]), [in_context(x) for x in v[4]]]
+    if v[0] == "reg" and v[1] == "Deque":
+        return ["reg", "Deque", [in_context(x) for x in v[2]]]
+    return v
+
+
 def gen(rng, tier, ctx):
-    return {"value": gen_value(rng, rng.randint(0, 5)), "redefine": rng.random() < 0.05}
+    value = gen_value(rng, rng.randint(0, 5))
+    if rng.random() < 0.2:
+        # from_json(data, unit=...): the keyword arguments reach every object, also through lists, and every registered
+        # deserializer accepts them
+        return {"value": in_context(value), "redefine": False, "kwargs": {"unit": rng.choice(["m", "ctx", ""])}}
+    return {"value": value, "redefine": rng.random() < 0.05}
 
 
 def witnesses():
     return {
+        "keyword-arguments-of-from-json-lost-in-lists": {
+            "value": ["list", [["node", 7, "n", ["uuid", "0" * 32], [["node", 7, "m", ["none"], []]]]]], "redefine": False,
+            "kwargs": {"unit": "m"}},
         "nested-class-tag-not-qualified": {"value": ["list", [["node", 6, "n", ["none"], []]]]},
     }
 
 
-def materialise(v, jm):
+def materialise(v, jm, unit=None):
+    if unit is not None:
+        # the objects of a value that is read back in a context were created in that context
+        out = materialise(v, jm)
+        stack = [out]
+        while stack:
+            x = stack.pop()
+            if isinstance(x, jm.ContextNode):
+                x.unit = unit
+                stack.extend([x.payload, *x.friends])
+            elif isinstance(x, (list, __import__("collections").deque)):
+                stack.extend(x)
+        return out
     import decimal
     import uuid
     k = v[0]
@@ -132,7 +163,7 @@ def materialise(v, jm):
         return getattr(jm, v[1])(*v[2:2 + n])
     if k == "list":
         return [materialise(x, jm) for x in v[1]]
-    cls = [jm.Node0, jm.Node1, jm.Node2, jm.Node3, jm.IterNode, jm.StaticNode, jm.Outer.NestedNode][v[1]]
+    cls = [jm.Node0, jm.Node1, jm.Node2, jm.Node3, jm.IterNode, jm.StaticNode, jm.Outer.NestedNode, jm.ContextNode][v[1]]
     kw = {"name": v[2], "payload": materialise(v[3], jm), "friends": [materialise(x, jm) for x in v[4]]}
     if v[1] in (2, 3):
         kw["level"] = v[5]
@@ -260,13 +291,15 @@ def run(spec, ctx):
     from krrood.adapters.json_serializer import from_json, to_json
     jm = ctx["jm"]
     C = ctx["counters"]
-    v = materialise(spec["value"], jm)
+    kwargs = spec.get("kwargs") or {}
+    v = materialise(spec["value"], jm, unit=kwargs.get("unit"))
     problems = []
     try:
         ser = to_json(v)
         check_tags(v, ser, "$", problems, C)
         text = json.dumps(ser)
-        back = from_json(json.loads(text))
+        back = from_json(json.loads(text), **kwargs)
+        C["read_back_with_keyword_arguments"] += bool(kwargs)
     except Exception as e:
         return {"status": "fail", "kind": "exception:" + type(e).__name__, "key": None, "detail": f"{type(e).__name__}: {e}"[:300]}
     same(v, back, "$", problems, C)
